@@ -32,6 +32,103 @@ const RAW_KINDS: [&str; 11] = [
     "fault.rawmangle.high_bits_set",
 ];
 
+
+// ---- boundary-value substitution for structured fields (scalars, coordinates) ----
+
+fn le_add(v: &[u8], add: u64) -> Vec<u8> {
+    let mut r = v.to_vec();
+    let mut c = add as u128;
+    for b in r.iter_mut() {
+        let s = *b as u128 + (c & 0xFF);
+        *b = s as u8;
+        c = (c >> 8) + (s >> 8);
+    }
+    r
+}
+
+fn le_sub(v: &[u8], sub: u64) -> Vec<u8> {
+    let mut r = v.to_vec();
+    let mut borrow = sub as i128;
+    for b in r.iter_mut() {
+        let d = *b as i128 - (borrow & 0xFF);
+        borrow >>= 8;
+        if d < 0 {
+            *b = (d + 256) as u8;
+            borrow += 1;
+        } else {
+            *b = d as u8;
+        }
+    }
+    r
+}
+
+fn fit(v: &[u8], len: usize) -> Vec<u8> {
+    let mut r = v.to_vec();
+    r.resize(len, 0);
+    r
+}
+
+/// Moduli of one scheme, little-endian, as (modulus - 1), taken from the library's own types.
+struct Bounds {
+    order_m1: Vec<u8>,
+    field_m1: Vec<u8>,
+}
+
+/// A boundary value for a `len`-byte integer field, in wire byte order.
+fn boundary(t: &mut Tape, len: usize, be: bool, b: &Bounds) -> Vec<u8> {
+    let k = t.choose(24);
+    let base = if t.chance(2, 3) { &b.order_m1 } else { &b.field_m1 };
+    let m1 = fit(base, len);
+    let mut v = match t.usize(10) {
+        0 => vec![0u8; len],
+        1 => fit(&[1], len),
+        2 => m1.clone(),                    // modulus - 1
+        3 => le_add(&m1, 1),                // modulus
+        4 => le_add(&m1, 2 + k),            // modulus + 1 + k
+        5 => le_sub(&m1, 1 + k),            // modulus - 2 - k
+        6 => vec![0xFFu8; len],
+        7 => {
+            let mut v = vec![0u8; len];
+            if len > 0 {
+                v[len - 1] = 0x80;
+            }
+            v
+        }
+        8 => {
+            // 2 * modulus + k (wraps if it does not fit)
+            let m = le_add(&m1, 1);
+            let mut r = vec![0u8; len];
+            let mut c = 0u16;
+            for i in 0..len {
+                let s = (m[i] as u16) * 2 + c;
+                r[i] = s as u8;
+                c = s >> 8;
+            }
+            le_add(&r, k)
+        }
+        _ => {
+            let mut v = vec![0xFFu8; len];
+            if len > 0 {
+                v[len - 1] = 0x7F;
+            }
+            le_sub(&v, k)
+        }
+    };
+    if be {
+        v.reverse();
+    }
+    v
+}
+
+macro_rules! bounds_of {
+    ($scalar:ty, $field:ty) => {
+        Bounds {
+            order_m1: (<$scalar>::ZERO - <$scalar>::ONE).encode().to_vec(),
+            field_m1: (<$field>::ZERO - <$field>::ONE).encode().to_vec(),
+        }
+    };
+}
+
 struct Net<'a> {
     t: &'a mut Tape,
     rng: SimRng,
@@ -108,6 +205,39 @@ impl<'a> Net<'a> {
     }
 }
 
+impl<'a> Net<'a> {
+    /// Deliver a byte string made of integer sub-fields `(len, big_endian)`: intact, raw-mangled, or with
+    /// one sub-field replaced by a boundary value of the scheme (0, 1, n-1, n, n+k, p-1, p, p+k, 2n, all ones).
+    fn structured(&mut self, out: &mut RunOut, b: &[u8], parts: &[(usize, bool)], bounds: &Bounds) -> Vec<u8> {
+        let total: usize = parts.iter().map(|p| p.0).sum();
+        if self.rate == 0 || total != b.len() || !self.t.chance(self.rate, 2000) {
+            return self.field(out, b);
+        }
+        let which = self.t.usize(parts.len());
+        let off: usize = parts[..which].iter().map(|p| p.0).sum();
+        let (len, be) = parts[which];
+        let v = boundary(self.t, len, be, bounds);
+        let mut r = b.to_vec();
+        r[off..off + len].copy_from_slice(&v);
+        self.junkyard.push(b.to_vec());
+        out.fault("fault.rawmangle.boundary_value_in_field");
+        r
+    }
+    /// A point-like field: intact, raw-mangled, or replaced by a known special encoding.
+    fn pointish(&mut self, out: &mut RunOut, b: &[u8], specials: &[Vec<u8>]) -> Vec<u8> {
+        if self.rate == 0 || specials.is_empty() || !self.t.chance(self.rate, 2500) {
+            return self.field(out, b);
+        }
+        let c: Vec<&Vec<u8>> = specials.iter().filter(|x| x.len() == b.len()).collect();
+        if c.is_empty() {
+            return self.field(out, b);
+        }
+        self.junkyard.push(b.to_vec());
+        out.fault("fault.rawmangle.special_point_encoding");
+        c[self.t.usize(c.len())].clone()
+    }
+}
+
 fn yesno(out: &mut RunOut, what: &'static str, ok: bool) {
     out.probe(if ok { "probe.exchange.accepted" } else { "probe.exchange.rejected" });
     let _ = what;
@@ -158,7 +288,17 @@ fn ex_ed25519(n: &mut Net, out: &mut RunOut, tier: Tier) {
         _ => sk.sign_ph(&ctx, &msg).to_vec(),
     };
     out.ev(format_args!("ed25519 mode{} pk={} sig={}", mode, hex(&pk_enc), hex(&sig)));
-    let (pk2, sig2, msg2) = (n.field(out, &pk_enc), n.field(out, &sig), n.field(out, &msg));
+    let bd = bounds_of!(crrl::ed25519::Scalar, crrl::field::GF25519);
+    let sp = <crate::world::suite::Ed25519 as crate::world::suite::Suite>::bad_points();
+    let (pk2, msg2) = (n.pointish(out, &pk_enc, &sp), n.field(out, &msg));
+    let sig2 = if n.t.chance(1, 3) {
+        // special encodings for R, boundary values for S
+        let r = n.pointish(out, &sig[..32], &sp);
+        let sv = n.structured(out, &sig[32..], &[(32, false)], &bd);
+        [r, sv].concat()
+    } else {
+        n.structured(out, &sig, &[(32, false), (32, false)], &bd)
+    };
     let ctx2 = { let c = n.field(out, &ctx); if c.len() > 255 { c[..255].to_vec() } else { c } };
     let skd = n.field(out, &sk.encode());
     let r = g!(out, "call.ed25519.PrivateKey_decode", hex_abbrev(&skd), PrivateKey::decode(&skd).map(|k| k.public_key.encode()));
@@ -214,7 +354,16 @@ fn ex_ed448(n: &mut Net, out: &mut RunOut) {
         _ => sk.sign_ph(&ctx, &msg).to_vec(),
     };
     out.ev(format_args!("ed448 mode{} pk={} sig={}", mode, hex(&pk_enc), hex(&sig)));
-    let (pk2, sig2, msg2) = (n.field(out, &pk_enc), n.field(out, &sig), n.field(out, &msg));
+    let bd = bounds_of!(crrl::ed448::Scalar, crrl::field::GF448);
+    let sp = <crate::world::suite::Ed448 as crate::world::suite::Suite>::bad_points();
+    let (pk2, msg2) = (n.pointish(out, &pk_enc, &sp), n.field(out, &msg));
+    let sig2 = if n.t.chance(1, 3) {
+        let r = n.pointish(out, &sig[..57], &sp);
+        let sv = n.structured(out, &sig[57..], &[(56, false), (1, false)], &bd);
+        [r, sv].concat()
+    } else {
+        n.structured(out, &sig, &[(56, false), (1, false), (56, false), (1, false)], &bd)
+    };
     let ctx2 = { let c = n.field(out, &ctx); if c.len() > 255 { c[..255].to_vec() } else { c } };
     let skd = n.field(out, &sk.encode());
     let r = g!(out, "call.ed448.PrivateKey_decode", hex_abbrev(&skd), PrivateKey::decode(&skd).map(|k| k.public_key.encode()));
@@ -258,7 +407,10 @@ fn ex_p256(n: &mut Net, out: &mut RunOut, tier: Tier) {
     let extra = if n.t.chance(1, 3) { n.rng.bytes(8) } else { Vec::new() };
     let sig = sk.sign_hash(&hv, &extra).to_vec();
     out.ev(format_args!("p256 pk={} hv={} sig={}", hex(&pk_enc), hex(&hv), hex(&sig)));
-    let (pk2, sig2, hv2) = (n.field(out, &pk_enc), n.field(out, &sig), n.field(out, &hv));
+    let bd = bounds_of!(crrl::p256::Scalar, crrl::field::GFp256);
+    let sig2 = n.structured(out, &sig, &[(32, true), (32, true)], &bd);
+    let pk2 = if pk_enc.len() == 33 { n.structured(out, &pk_enc, &[(1, true), (32, true)], &bd) } else { n.structured(out, &pk_enc, &[(1, true), (32, true), (32, true)], &bd) };
+    let hv2 = n.field(out, &hv);
     let skd = n.field(out, &sk.encode());
     let r = g!(out, "call.p256.PrivateKey_decode", hex_abbrev(&skd), PrivateKey::decode(&skd).map(|k| k.to_public_key().encode_compressed()));
     out.ev(format_args!(" sk decode -> {:?}", r.map(|x| x.map(|e| hex(&e)))));
@@ -292,7 +444,10 @@ fn ex_secp256k1(n: &mut Net, out: &mut RunOut) {
     let extra = if n.t.chance(1, 3) { n.rng.bytes(8) } else { Vec::new() };
     let sig = sk.sign_hash(&hv, &extra).to_vec();
     out.ev(format_args!("secp256k1 pk={} hv={} sig={}", hex(&pk_enc), hex(&hv), hex(&sig)));
-    let (pk2, sig2, hv2) = (n.field(out, &pk_enc), n.field(out, &sig), n.field(out, &hv));
+    let bd = bounds_of!(crrl::secp256k1::Scalar, crrl::field::GFsecp256k1);
+    let sig2 = n.structured(out, &sig, &[(32, true), (32, true)], &bd);
+    let pk2 = if pk_enc.len() == 33 { n.structured(out, &pk_enc, &[(1, true), (32, true)], &bd) } else { n.structured(out, &pk_enc, &[(1, true), (32, true), (32, true)], &bd) };
+    let hv2 = n.field(out, &hv);
     let skd = n.field(out, &sk.encode());
     let r = g!(out, "call.secp256k1.PrivateKey_decode", hex_abbrev(&skd), PrivateKey::decode(&skd).map(|k| k.to_public_key().encode_compressed()));
     out.ev(format_args!(" sk decode -> {:?}", r.map(|x| x.map(|e| hex(&e)))));
@@ -312,7 +467,7 @@ fn ex_secp256k1(n: &mut Net, out: &mut RunOut) {
 macro_rules! ex_schnorr {
     ($fname:ident, $m:ident, $name:expr) => {
         fn $fname(n: &mut Net, out: &mut RunOut) {
-            use crrl::$m::{Point, PrivateKey, PublicKey};
+            use crrl::$m::{Point, PrivateKey, PublicKey, Scalar};
             let ska = PrivateKey::generate(&mut n.rng);
             let skb = PrivateKey::generate(&mut n.rng);
             let pka = ska.public_key.encode().to_vec();
@@ -326,7 +481,21 @@ macro_rules! ex_schnorr {
             };
             out.ev(format_args!("{} pka={} pkb={} hn='{}' sig={}", $name, hex(&pka), hex(&pkb), hn, hex(&sig)));
             // signed message A -> B
-            let (pk2, sig2, data2) = (n.field(out, &pka), n.field(out, &sig), n.field(out, &data));
+            let bd = Bounds {
+                order_m1: (Scalar::ZERO - Scalar::ONE).encode().to_vec(),
+                field_m1: vec![0xFF; 32],
+            };
+            let specials: Vec<Vec<u8>> = vec![vec![0u8; 32], vec![0xFFu8; 32], {
+                let mut v = vec![0u8; 32];
+                v[31] = 0x80;
+                v
+            }, {
+                let mut v = vec![0xFFu8; 32];
+                v[31] = 0x7F;
+                v
+            }];
+            let (pk2, data2) = (n.pointish(out, &pka, &specials), n.field(out, &data));
+            let sig2 = n.structured(out, &sig, &[(16, false), (32, false)], &bd);
             match g!(out, concat!("call.", $name, ".PublicKey_decode"), hex_abbrev(&pk2), PublicKey::decode(&pk2)) {
                 Some(Some(pk)) => {
                     let v = g!(out, concat!("call.", $name, ".verify"), format!("{} {}", hex(&sig2), hex_abbrev(&data2)), pk.verify(&sig2, hn, &data2));
@@ -339,7 +508,7 @@ macro_rules! ex_schnorr {
                 }
             }
             // key agreement both ways, each with whatever peer key arrives
-            let (pb, pa) = (n.field(out, &pkb), n.field(out, &pka));
+            let (pb, pa) = (n.pointish(out, &pkb, &specials), n.pointish(out, &pka, &specials));
             let r1 = g!(out, concat!("call.", $name, ".ECDH"), hex_abbrev(&pb), ska.ECDH(&pb));
             let r2 = g!(out, concat!("call.", $name, ".ECDH"), hex_abbrev(&pa), skb.ECDH(&pa));
             for r in [r1, r2] {
@@ -387,8 +556,9 @@ fn ex_x25519(n: &mut Net, out: &mut RunOut) {
     let pa = x25519_base(&a);
     let pb = x25519_base(&b);
     out.ev(format_args!("x25519 pa={} pb={}", hex(&pa), hex(&pb)));
+    let bd = bounds_of!(crrl::ed25519::Scalar, crrl::field::GF25519);
     for (sk, peer) in [(a, pb), (b, pa)] {
-        let d = n.field(out, &peer);
+        let d = n.structured(out, &peer, &[(32, false)], &bd);
         // the API takes fixed-size arrays: a wrong-length delivery cannot be passed at all
         if let Ok(arr) = <[u8; 32]>::try_from(&d[..]) {
             let r = g!(out, "call.x25519.x25519", hex(&arr), x25519(&arr, &sk));
@@ -407,8 +577,9 @@ fn ex_x448(n: &mut Net, out: &mut RunOut) {
     let pa = x448_base(&a);
     let pb = x448_base(&b);
     out.ev(format_args!("x448 pa={} pb={}", hex(&pa), hex(&pb)));
+    let bd = bounds_of!(crrl::ed448::Scalar, crrl::field::GF448);
     for (sk, peer) in [(a, pb), (b, pa)] {
-        let d = n.field(out, &peer);
+        let d = n.structured(out, &peer, &[(56, false)], &bd);
         if let Ok(arr) = <[u8; 56]>::try_from(&d[..]) {
             let r = g!(out, "call.x448.x448", hex(&arr), x448(&arr, &sk));
             out.ev(format_args!(" shared -> {:?}", r.map(|e| hex(&e))));
@@ -545,6 +716,70 @@ fn ex_groups(n: &mut Net, out: &mut RunOut) {
     }
 }
 
+
+/// FROST wire decoders and verifiers fed with whatever the network delivers (any length, bytes of other
+/// protocols, other encodings of the same point). Universal invariant only.
+fn ex_frost<S: crate::world::suite::Suite>(n: &mut Net, out: &mut RunOut) {
+    let gsk = S::gsk_generate(&mut n.rng);
+    let gpk = S::gsk_public(gsk);
+    let gpk_enc = S::gpk_encode(gpk);
+    let nn = 2 + n.t.usize(2);
+    let (shares, vss) = S::split(&mut n.rng, gsk, 2, nn);
+    let (nonce1, comm1) = S::share_commit(shares[0], &mut n.rng);
+    let (_n2, comm2) = S::share_commit(shares[1], &mut n.rng);
+    let list = vec![comm1, comm2];
+    let msg = { let l = n.t.usize(100); n.rng.bytes(l) };
+    let ss = S::share_sign(shares[0], nonce1, comm1, &msg, &list);
+    let sig = S::gsk_sign(gsk, &mut n.rng, &msg);
+    let spk = S::share_public(shares[0]);
+    out.ev(format_args!("frost {} gpk={} list={}", S::NAME, hex(&gpk_enc), hex_abbrev(&S::comm_encode_list(&list))));
+    macro_rules! feed {
+        ($label:expr, $bytes:expr, $dec:expr) => {{
+            let d = n.field(out, &$bytes);
+            let r = g!(out, $label, hex_abbrev(&d), $dec(&d[..]).is_some());
+            out.ev(format_args!(" {} ({}B) -> {:?}", $label, d.len(), r));
+            yesno(out, $label, r == Some(true));
+            d
+        }};
+    }
+    feed!("call.frost.share_decode", S::share_encode(shares[0]), S::share_decode);
+    feed!("call.frost.vss_decode_list", S::vss_encode_list(&vss), S::vss_decode_list);
+    feed!("call.frost.comm_decode", S::comm_encode(comm1), S::comm_decode);
+    let dl = feed!("call.frost.comm_decode_list", S::comm_encode_list(&list), S::comm_decode_list);
+    let dss = match ss {
+        Some(x) => feed!("call.frost.sigshare_decode", S::sigshare_encode(x), S::sigshare_decode),
+        None => Vec::new(),
+    };
+    let dsig = feed!("call.frost.sig_decode", S::sig_encode(sig), S::sig_decode);
+    feed!("call.frost.gsk_decode", S::gsk_encode(gsk), S::gsk_decode);
+    feed!("call.frost.spk_decode", S::spk_encode(spk), S::spk_decode);
+    feed!("call.frost.nonce_decode", S::nonce_encode(nonce1), S::nonce_decode);
+    let dg = feed!("call.frost.gpk_decode", gpk_enc, S::gpk_decode);
+    // other encodings of the same group element
+    for alt in S::alt_point_encodings(&gpk_enc) {
+        out.fault("fault.rawmangle.alternate_point_format");
+        let r = g!(out, "call.frost.gpk_decode", hex_abbrev(&alt), S::gpk_decode(&alt).is_some());
+        out.ev(format_args!(" gpk alt format ({}B) -> {:?}", alt.len(), r));
+    }
+    // verification with whatever decoded
+    let k = match g!(out, "call.frost.gpk_decode", hex_abbrev(&dg), S::gpk_decode(&dg)) {
+        Some(Some(k)) => k,
+        _ => gpk,
+    };
+    let md = n.field(out, &msg);
+    let v = g!(out, "call.frost.verify_esig", format!("{} {}", hex_abbrev(&dsig), hex_abbrev(&md)), S::gpk_verify_esig(k, &dsig, &md));
+    out.ev(format_args!(" verify_esig -> {:?}", v));
+    yesno(out, "frost.verify_esig", v == Some(true));
+    if let (Some(Some(l)), Some(Some(x))) = (
+        g!(out, "call.frost.comm_decode_list", hex_abbrev(&dl), S::comm_decode_list(&dl)),
+        g!(out, "call.frost.sigshare_decode", hex_abbrev(&dss), S::sigshare_decode(&dss)),
+    ) {
+        let v = g!(out, "call.frost.verify_signature_share", hex_abbrev(&dss), S::spk_verify_share(spk, x, &l, k, &md));
+        out.ev(format_args!(" verify_signature_share -> {:?}", v));
+        yesno(out, "frost.verify_share", v == Some(true));
+    }
+}
+
 pub fn run(t: &mut Tape, tier: Tier, out: &mut RunOut) {
     let rng = SimRng::new(t.seed64());
     let rate = [0u64, 150, 400, 800][t.weighted(&[1, 3, 3, 2])];
@@ -552,7 +787,7 @@ pub fn run(t: &mut Tape, tier: Tier, out: &mut RunOut) {
     let mut n = Net { t, rng, junkyard: Vec::new(), rate };
     out.summary = format!("exchange world: {} exchanges, per-field corruption rate {}/1000", nex, rate);
     for i in 0..nex {
-        let which = n.t.usize(10);
+        let which = n.t.usize(12);
         out.sched("exchange", which as u32, i as u32);
         match which {
             0 => ex_ed25519(&mut n, out, tier),
@@ -564,7 +799,14 @@ pub fn run(t: &mut Tape, tier: Tier, out: &mut RunOut) {
             6 => ex_gls254(&mut n, out),
             7 => ex_x25519(&mut n, out),
             8 => ex_x448(&mut n, out),
-            _ => ex_groups(&mut n, out),
+            9 => ex_groups(&mut n, out),
+            _ => match n.t.usize(5) {
+                0 => ex_frost::<crate::world::suite::Ed25519>(&mut n, out),
+                1 => ex_frost::<crate::world::suite::Ristretto255>(&mut n, out),
+                2 => ex_frost::<crate::world::suite::P256>(&mut n, out),
+                3 => ex_frost::<crate::world::suite::Secp256k1>(&mut n, out),
+                _ => ex_frost::<crate::world::suite::Ed448>(&mut n, out),
+            },
         }
         out.ops_completed += 1;
     }
